@@ -357,8 +357,20 @@ def check_spinlock(ctx, tu):
             blk = f.blocks[pos[0]]
             # loop: the block testing the flag reaches itself, and leaves the loop only on the false edge
             loops = f.block_reaches(pos[0], pos[0])
-            cond_ok = blk.get('cond') and f.strip_all_casts(blk['cond']) == n and blk['succ'][0] is not None and \
-                (blk['succ'][0] == pos[0] or f.block_reaches(blk['succ'][0], pos[0])) and not (blk['succ'][1] is not None and f.block_reaches(blk['succ'][1], pos[0]))
+            # the loop is left only over the edge on which test_and_set returned false (whatever the loop is written as: while(tas()),
+            # for(;;) { if(!tas()) return; }, a local holding the result ...)
+            cond_ok = False
+            for bid, b2 in f.blocks.items():
+                c = b2.get('cond')
+                if not c or len(b2['succ']) != 2 or b2['succ'][0] is None or b2['succ'][1] is None:
+                    continue
+                core, neg = f.cond_core(c)
+                if core != n:
+                    continue
+                held_edge, free_edge = (1, 0) if neg else (0, 1)          # successor index taken when the flag was already set / was clear
+                back = b2['succ'][held_edge] == pos[0] or f.block_reaches(b2['succ'][held_edge], pos[0])
+                out = not (b2['succ'][free_edge] == pos[0] or f.block_reaches(b2['succ'][free_edge], pos[0]))
+                cond_ok = back and out
             ok = order in (2, 4, 5) and loops and bool(cond_ok)
             detail = 'order=%s loop=%s exits-only-when-clear=%s' % (MEMORY_ORDER.get(order, order), loops, bool(cond_ok))
         ctx.ob('C03.L6', f, 'lock() spins until test_and_set returns false, with acquire or stronger ordering', ok, detail=detail)
